@@ -11,12 +11,12 @@ import common as C
 # tag -> owning property (core:* are resolved by context, see owner_of)
 TAG_OWNER = {
     "route": "C01", "alloc": "C05", "time": "C12", "quiet:more": "C13", "wire:abandon": "C13", "wire": "C02",
-    "wire:missing:abandon": "C13", "wire:missing": "C02", "effect:lost-route": "C01",
+    "wire:missing:abandon": "C13", "quiet:pending": ("C13", "C12"), "wire:missing": "C02", "effect:lost-route": "C01",
     "effect:abandon": ("C13", "C01"), "effect:scrub": ("C12", "C13"), "stream": "C10", "close": "C04", "closed": "C04",
     "inv:Routing": ("C01", "C12"), "inv:NoLeak": "C13", "inv:UniqueIds": "C05", "inv:WireUnique": "C05", "inv:IdRange": "C05", "inv:Protected": "C05", "inv:RoutedProtected": "C05",
     "inv:TimeoutExact": "C12", "inv:FailFast": "C04", "inv:StreamOK": "C10",
 }
-FAULT_EVENTS = ("SrvClose", "SrvGarbage", "DrvExit")
+FAULT_EVENTS = ("SrvClose", "SrvGarbage", "SrvBadDone", "DrvExit")
 
 _DIAG = re.compile(r'^<<"DIAG", (\d+), (.*)>>$')
 
@@ -111,12 +111,12 @@ def scenario_of(events, idx):
 NEED = {
     "C01": ["recv:result", "recv:search", "recv:none", "ret:val", "next:item", "overlap:two-waiting", "orphan"],
     "C04": ["close:eof", "close:reset", "close:wfail", "garbage", "exit:exitErr", "exit:exitOk", "ret:err", "next:closed",
-            "ret:err-at-once", "unbind", "fault-while-waiting"],
+            "ret:err-at-once", "unbind", "fault-while-waiting", "baddone"],
     "C05": ["alloc", "alloc:wrap", "recv:result"],
-    "C10": ["next:item", "next:done", "next:noop", "finish:early", "finish:full"],
+    "C10": ["next:item", "next:done", "next:noop", "next:aderr", "finish:early", "finish:full"],
     "C12": ["ret:timeout", "next:timeout", "scrub", "late-reply", "ok-after-timeout", "timeout-while-blocked",
             "timeout-before-dequeue", "item-then-timeout"],
-    "C13": ["quiet", "abandon", "abandon:in-flight", "finish:early", "scrub", "ret:timeout", "caller-gone"],
+    "C13": ["quiet", "abandon", "abandon:in-flight", "finish:early", "scrub", "ret:timeout", "caller-gone", "next:aderr"],
 }
 
 
@@ -206,6 +206,9 @@ def behaviour_coverage(events, cov):
             blocked = False
         elif ev == "SrvOrphan":
             cov["orphan"] += 1
+        elif ev == "SrvBadDone":
+            cov["baddone"] += 1
+            faulted = True
         elif ev == "DrvExit":
             cov["exit:" + e["how"]] += 1
         elif ev == "Quiet":
